@@ -335,8 +335,9 @@ func (pb prefixDBBatch) GetByteSize() (int, error) {
 	return pb.source.GetByteSize()
 }
 
-// Returns a slice of the same length (big endian)
-// except incremented by one.
+// Returns the smallest byte string that is greater than every byte string with
+// the prefix bz: bz without its trailing 0xFF bytes, with the last remaining byte
+// incremented by one.
 // Returns nil on overflow (e.g. if bz bytes are all 0xFF)
 // CONTRACT: len(bz) > 0
 func cpIncr(bz []byte) (ret []byte) {
@@ -347,7 +348,8 @@ func cpIncr(bz []byte) (ret []byte) {
 	for i := len(bz) - 1; i >= 0; i-- {
 		if ret[i] < byte(0xFF) {
 			ret[i]++
-			return
+			// keeping the zeroed tail would put keys outside the prefix below the bound
+			return ret[:i+1]
 		}
 		ret[i] = byte(0x00)
 		if i == 0 {
